@@ -26,6 +26,15 @@ class Case:
         self.cmds = []                            # tuples
         self.next_id = 1
 
+    # ---- the closing phase of a case (drain / stop): shrinking never removes it (be_check.py)
+    def mark_tail(self): self._tail_from = len(self.cmds)
+    @property
+    def keep_tail(self):
+        f = getattr(self, '_tail_from', None)
+        return 0 if f is None else max(0, len(self.cmds) - f)
+    @keep_tail.setter
+    def keep_tail(self, n): self._tail_from = len(self.cmds) - n
+
     # ---- commands
     def log(self, t, lg=0, lvl=4, pad=0, mode=0, stall=False, id=None, static=False, named=False):
         i = id if id is not None else self.next_id
